@@ -166,6 +166,28 @@ Theorem c11_untagged_extra_columns_panic : forall fs cols strict,
 Proof. exact untagged_overflow. Qed.
 Print Assumptions c11_untagged_extra_columns_panic.
 
+(* ------------------------------------------------------------------ entry points *)
+
+(* on every receiver (conn, prepared statement, transaction session) the strict forms pass strict = true
+   and the Partial forms strict = false, single-row forms go to unmarshalRow and multi-row forms to
+   unmarshalRows: the theorems of part 2 apply verbatim to all 12 (24 with the plain forms) methods *)
+Theorem c11_entry_points_strictness : forall r m, strict_flag r m = spec_strict m.
+Proof. intros [] []; reflexivity. Qed.
+Print Assumptions c11_entry_points_strictness.
+
+(* a query issued as the body of Transact: nil => [Begin; Commit] and nil; an error (e.g. ErrNotFound,
+   ErrNotMatchDestination, a Scan error) => [Begin; Rollback] and that very error; a panic (the
+   untagged-overflow observation) => [Begin; Rollback] and a non-nil error *)
+Theorem c11_query_in_transaction : forall st,
+  transact (mkfaults false false false) (body_of_query st) =
+  match st with
+  | Ok _ => (None, [Begin true; Commit true])
+  | Err n => (Some (EBody n), [Begin true; Rollback true])
+  | Panic => (Some (EPanic 0), [Begin true; Rollback true])
+  end.
+Proof. intros [[]|n|]; reflexivity. Qed.
+Print Assumptions c11_query_in_transaction.
+
 (* ------------------------------------------------------------------ non-vacuity *)
 Example c11_tx_examples :
   (* clean body, no faults: nil and [Begin; Exec 0; Commit] *)
